@@ -145,6 +145,8 @@ def power(a, b):
         if np.all(yr.imag == 0) and np.all(yr.real == np.round(yr.real)):
             x, y = np.broadcast_arrays(x, y)
             out = np.empty(x.shape, dtype=complex)
+            if not np.all(np.isfinite(yr.real)) or np.any(np.abs(yr.real) > 1e6):
+                raise RReject("non-finite / huge exponent")
             for idx in np.ndindex(x.shape):
                 out[idx] = x[idx] ** int(y[idx].real)
             return LT(out, 0, fi)
